@@ -35,6 +35,17 @@ def alphabet(clock, nmax):
     return a
 
 
+def extra_alphabet(clock, nmax):
+    """bounded runs that are interrupted by a stop before they reach their
+    bound (only as the last piece before the closing start)"""
+    a = []
+    for kk in range(min(2, nmax)):
+        a.append(("upto_pause", 2, kk))
+        a.append(("upto_pause", 4, kk))
+    a.append(("uptoi_pause", 2, 0))
+    return a
+
+
 def judge(prog, clock, pieces, end=progmc.END):
     """returns (list of disagreements, all_specified)"""
     full = progmc.Ref(prog, end=end).full_trace()
@@ -115,8 +126,15 @@ def worker(task):
                 continue
             prog = progmc.build(parents, labs, 0)
             alpha = alphabet(clock, k)
-            for d in range(0, depth + 1):
-                for seg in itertools.product(alpha, repeat=d):
+            extra = extra_alphabet(clock, k)
+            segs = [seg for d in range(0, depth + 1)
+                    for seg in itertools.product(alpha, repeat=d)]
+            segs += [seg + (x,) for d in range(0, min(depth, 2))
+                     for seg in itertools.product(alpha, repeat=d)
+                     for x in extra]
+            for seg in segs:
+                d = len(seg)
+                if True:
                     pieces = list(seg) + [("start",), ("start",)]
                     n += 1
                     bad, allspec = judge(prog, clock, pieces)
